@@ -110,6 +110,8 @@ h1 = {"name": "h1_structure", "src": "h1_structure.c", "env": ["ctx", "list_wrap
                "Per sequence: non-critical and forward flag of every record, all payload bytes and the magic symbolic; payload lengths 0..5 fixed by position",
       "instances": [group("q%02d" % i, g) for i, g in enumerate(Q)],
       "thorough": {"instances": [group("t%02d" % i, g) for i, g in enumerate(T)], "timeout": 1800}}
+h1["instances"][0]["defines"].append("SHORT_INPUTS=1")
+h1["thorough"]["instances"][0]["defines"].append("SHORT_INPUTS=1")
 
 # ---------------------------------------------------------------- h2 verify wiring
 h2i = []
